@@ -9,7 +9,9 @@ spec/Fs.tla: the nine std.fs calls as a state machine over a small file tree.
   TLC  MC_Fs                           every call sequence up to Depth; emits the transition graph
   vh   stdlibx table/replay/random/stdin/fs   runs the real code (generated programs and host API)
   TLC  Trace_Stdlib                    judges every recorded observation (impl -> spec)
+  TLC  Trace_Fs                        validates seeded random fs walks beyond the enumerated depth (impl -> spec)
 """
+import glob
 import json
 import os
 import shutil
@@ -106,9 +108,20 @@ def fs_side(tier, out):
         subprocess.run(NOBODY + ["rm", "-rf", os.path.join(d, "scratch")], stderr=subprocess.DEVNULL)
         return s
 
-    with ThreadPoolExecutor(2) as ex:
-        fa, fb = ex.submit(as_root), ex.submit(as_nobody)
-        return res, fa.result(), fb.result()
+    def walks():
+        """impl -> spec: seeded random walks longer than the enumerated depth, judged by Trace_Fs"""
+        nw, ln = ("300", "12") if tier == "quick" else ("4000", "16")
+        ws = os.path.join(out, "fs_walk_scratch")
+        _vh(["stdlibx", "fswalk", ws, o("fswalk.ndjson"), o("sum_walk.json"), nw, ln])
+        shutil.rmtree(ws, ignore_errors=True)
+        tr = C.run_tlc("Trace_Fs", "Trace_Fs.cfg", workers=1, dfs=True, timeout=2400,
+                       env_extra={"VERIF_IN": o("fswalk.ndjson")}, name="fs_trace_" + tier)
+        C.require_tlc_ok(tr, "Trace_Fs")
+        return tr, _load(o("sum_walk.json"))
+
+    with ThreadPoolExecutor(3) as ex:
+        fa, fb, fc = ex.submit(as_root), ex.submit(as_nobody), ex.submit(walks)
+        return res, fa.result(), fb.result(), fc.result()
 
 
 def classify(name, args):
@@ -123,6 +136,8 @@ def classify(name, args):
 
 def run(tier):
     chk = C.Check("C18", tier)
+    for f in glob.glob(os.path.join(C.REPLAY, "C18", "C18_%s_*.json" % tier)):
+        os.remove(f)          # replay files of an earlier run
     out = C.workdir("c18_" + tier)
     C.build_harness()
     with ThreadPoolExecutor(3) as ex:
@@ -130,7 +145,7 @@ def run(tier):
         f_std = ex.submit(stdlib_side, tier, out)
         f_fs = ex.submit(fs_side, tier, out)
         res_cases, stdin_sums = f_std.result()
-        res_fs, fs_root, fs_nobody = f_fs.result()
+        res_fs, fs_root, fs_nobody, (res_walk, walk_sum) = f_fs.result()
         res_laws = f_laws.result()
     o = lambda n: os.path.join(out, n)
     chk.add_tlc("MC_Stdlib laws", res_laws, "NL=2: all 16-bit ints vs TLC integers (quick: sampled), string laws on all strings "
@@ -174,7 +189,8 @@ def run(tier):
             violate({"fn": "std.io.cgetline", "kind": "cgetline", "stdin": r["stdin"]}, {"why": bad["why"], "observed": r})
         else:
             violate({"fn": r["name"], "kind": "judgement", "input_class": classify(r["name"], r["args"]), "program": r.get("text", "")},
-                    {"why": bad["why"], "program": r.get("text"), "route": r["route"], "args": r["args"], "observed": r["out"]})
+                    {"why": bad["why"], "program": r.get("text"), "route": r["route"], "args": r["args"],
+                     "expected": bad.get("expected", "a member of the declared result type"), "observed": r["out"]})
 
     # ---- spec -> impl: the harness' comparisons with TLC's predictions
     rep = _load(o("sum_replay.json"))
@@ -190,13 +206,27 @@ def run(tier):
             violate({"fn": "std.fs.%s" % m["f"], "kind": m["kind"], "p": m["p"], "q": m["q"],
                      "input_class": json.dumps(m["tree_before"], sort_keys=True)}, m)
 
+    # ---- impl -> spec for the file system: random walks judged by Trace_Fs
+    chk.add_tlc("Trace_Fs", res_walk, "one state per recorded event: Fs!Step with the logged call must give the logged result and tree")
+    events = C.read_ndjson(o("fswalk.ndjson"))
+    if '<<"TRACE", %d>>' % len(events) not in res_walk.out:
+        raise C.ToolError("Trace_Fs did not consume all %d events" % len(events))
+    for bad in res_walk.printed("BAD"):
+        e = events[bad["i"] - 1]
+        start = max(j for j in range(bad["i"]) if events[j]["ev"] == "init")
+        history = [{"f": x["f"], "p": "/".join(x["p"]), "q": "/".join(x["q"]), "returned": x["ret"]} for x in events[start + 1:bad["i"]]]
+        violate({"fn": "std.fs.%s" % e["f"], "kind": "fs_walk", "p": "/".join(e["p"]), "q": "/".join(e["q"]),
+                 "input_class": json.dumps(events[bad["i"] - 2]["tree"], sort_keys=True)},
+                {"initial_tree": events[start]["tree"], "calls": history, "expected": bad,
+                 "observed": {"returns": e["ret"], "raw": e["raw"], "tree": e["tree"]}})
+
     # ---- coverage
     cov = chk.cov
     fs_beh = sum(s["behaviours"] for s in fs_runs)
     fs_calls = sum(s["calls"] for s in fs_runs)
     stdin_calls = sum(s["calls"] for s in stdin_sums)
-    cov["traces_validated_against_impl"] = rep["calls"] + rnd["calls"] + fs_beh + stdin_calls + sum(1 for r in obs if r["ev"] == "decl")
-    cov["evaluations"] = rep["calls"] + rnd["calls"] + fs_calls + stdin_calls + len(obs)
+    cov["traces_validated_against_impl"] = walk_sum["walks"] + rep["calls"] + rnd["calls"] + fs_beh + stdin_calls + sum(1 for r in obs if r["ev"] == "decl")
+    cov["evaluations"] = rep["calls"] + rnd["calls"] + fs_calls + walk_sum["calls"] + stdin_calls + len(obs) + len(events)
     nt = res_tr.printed("NONTRIVIAL")
     nontrivial_calls = nt[0]["n"] if nt else 0
     fs_nontrivial = sum(s.get("nontrivial", 0) for s in fs_runs)
@@ -214,6 +244,7 @@ def run(tier):
     cov["fs_calls_executed"] = fs_calls
     cov["fs_successful_calls"] = sum(s["successful_calls"] for s in fs_runs)
     cov["cgetline_calls"] = stdin_calls
+    cov["fs_random_walks"] = walk_sum
     cov["observations_judged_by_tlc"] = len(obs)
     cov["mismatch_counts"] = {"replay": rep["mismatch_counts"], "random": rnd["mismatch_counts"],
                               "fs": [s["mismatch_counts"] for s in fs_runs], "trace_rejected": len(res_tr.printed("BAD"))}
